@@ -252,8 +252,9 @@ def rdata_octets(fields):
 
 
 def WKS_BIT(p):
-    # the bit order of src/rr/rdata/std13.rs serialize_in_wks (its own unit test pins it)
-    return 1 << (p % 8)
+    # RFC 1035 3.4.2 / 2.3.2: bits are numbered from the most significant one (port 25 = 0x40 of the fourth octet);
+    # the implementation numbers them from the least significant one: known finding C23-1 (checks/c23.py finding_matches)
+    return 0x80 >> (p % 8)
 
 
 def render_field(rng, k, v, origin, first):
